@@ -19,13 +19,19 @@ import (
 // writer; every result is compared (by the trace acceptor) with the result of the same call made alone beforehand.
 // When the binary is built with -race, data races inside the library are reported through GORACE's log_path.
 var concTemplates = map[string]string{
-	"a.html":    `<p>{{ x }}</p>{% block b %}[{{ y }}]{% endblock %}{% for i in [1, 2] %}{{ i }}{{ x }}{% endfor %}`,
-	"b.js":      `var v="{{ x }}";{% for i in [1, 2, 3] %}{{ y }};{% endfor %}{% if y %}{{ x|raw }}{% endif %}`,
-	"c.css":     `p:after{content:"{{ x }}"}{% set z %}{{ y }}{% endset %}{{ z|raw }}`,
-	"d.txt":     `{{ x }}|{{ y }}|{% filter upper %}{{ x }}{% endfilter %}`,
-	"e.html":    `{% extends 'a.html' %}{% block b %}E({{ parent() }}){{ x }}{% include 'b.js' %}{% endblock %}`,
-	"f":         `{% macro m(p) %}<{{ p }}>{% endmacro %}{{ _self.m(x) }}{% embed 'a.html' %}{% block b %}F{{ y }}{% endblock %}{% endembed %}`,
-	"bad.html":  `{{ x }}{% if y %}unclosed`,
+	"a.html":   `<p>{{ x }}</p>{% block b %}[{{ y }}]{% endblock %}{% for i in [1, 2] %}{{ i }}{{ x }}{% endfor %}`,
+	"b.js":     `var v="{{ x }}";{% for i in [1, 2, 3] %}{{ y }};{% endfor %}{% if y %}{{ x|raw }}{% endif %}`,
+	"c.css":    `p:after{content:"{{ x }}"}{% set z %}{{ y }}{% endset %}{{ z|raw }}`,
+	"d.txt":    `{{ x }}|{{ y }}|{% filter upper %}{{ x }}{% endfilter %}`,
+	"e.html":   `{% extends 'a.html' %}{% block b %}E({{ parent() }}){{ x }}{% include 'b.js' %}{% endblock %}`,
+	"f":        `{% macro m(p) %}<{{ p }}>{% endmacro %}{{ _self.m(x) }}{% embed 'a.html' %}{% block b %}F{{ y }}{% endblock %}{% endembed %}`,
+	"bad.html": `{{ x }}{% if y %}unclosed`,
+	// calls that fail part-way, inside a macro, a capture, a filter section and a block() call: whatever they had produced
+	// by then must not show up in anybody's later result
+	"mf.html":   `{% macro m(p) %}<div class="w">{{ p }}{% include 'nope' %}</div>{% endmacro %}A{{ _self.m(x) }}B`,
+	"cf.html":   `{% set c %}[captured {{ x }}{{ nosuchfn() }}]{% endset %}{{ c }}`,
+	"ff.html":   `{% filter upper %}(filtered {{ y }}{{ x|nosuchfilter }}){% endfilter %}`,
+	"bf.html":   `{% block b %}{bl {{ x }}{% include 'nope' %}}{% endblock %}{{ block('b') }}`,
 	"g.js.twig": `{% from 'f' import m %}{{ m(y) }}/*{{ x }}*/`,
 	// every operator, test and literal form at least once; the pattern of "matches" and the operands differ per call
 	"h.html": `{{ x matches pat }}{{ y matches '^' ~ n }}{{ n in [1, 2, n] }}{{ n not in 1..3 }}{{ x starts with '<' }}{{ x ends with '>' }}` +
@@ -57,7 +63,7 @@ var concTemplates = map[string]string{
 }
 
 var concGated = []string{"j.html", "g_for.html", "g_block.html", "g_macro.html", "g_embed.html", "g_filter.html", "g_expr.js", "g_import.html", "g_use.css", "g_obj.html"}
-var concNames = []string{"a.html", "b.js", "c.css", "d.txt", "e.html", "f", "bad.html", "g.js.twig", "h.html", "i.html", "u.html", "m.html", "o.html"}
+var concNames = []string{"a.html", "b.js", "c.css", "d.txt", "e.html", "f", "bad.html", "g.js.twig", "h.html", "i.html", "u.html", "m.html", "o.html", "mf.html", "cf.html", "ff.html", "bf.html"}
 
 // barrier: a blocking user function used as a scheduler gate - gate(r) returns when all n callers of round r have
 // arrived (or after a time-out, so that a caller that failed early cannot block the others for ever).
